@@ -75,6 +75,9 @@ CORPUS = [
     # internal alignment, a dovetail, a gap and a fragment
     ('gfa2', ['S\ta\t10\t*', 'S\tb\t4\t*', 'E\tc1\tb+\ta+\t0\t4$\t3\t7\t*', 'E\tc2\ta-\tb+\t2\t6\t0\t4$\t4M',
               'E\ti1\ta+\tb-\t2\t5\t1\t3\t*', 'G\tg1\ta+\tb-\t3\t*']),
+    # groups given in several lines, tagged and untagged, in both arrangements
+    ('gfa2', ['S\ta\t10\t*', 'S\tb\t10\t*', 'U\tu1\ta', 'U\tu1\tb\txx:i:1', 'O\to1\ta+\tyy:Z:k', 'O\to1\tb-']),
+    ('gfa2', ['S\ta\t10\t*', 'S\tb\t10\t*', 'U\tu1\ta\txx:i:1\tzz:A:c', 'U\tu1\tb', 'U\tu1\tb\txx:i:1']),
     # two paths over one hairpin step whose overlap is not its own complement (F71)
     ('gfa1', ['S\tx\t*', 'L\tx\t+\tx\t-\t1I1D5I', 'P\tp1\tx+,x-\t*', 'P\tp0\tx+,x-\t5D1I1D']),
     # gaps listed by a set and by an ordered group
@@ -108,7 +111,15 @@ def run(ctx, deep, model_ok):
                 orders = rng.sample(orders, 120)
         else:
             orders = [tuple(rng.sample(lines, len(lines))) for _ in range(30 if deep else 12)] + [tuple(lines)]
-        # U/O same-id lines keep their relative order
+        # U/O same-id lines keep their relative order (the order of their concatenation is content)
+        def group_seq(o):
+            seq = {}
+            for l in o:
+                f = l.split('\t')
+                if f[0] in 'OU' and len(f) > 1 and f[1] != '*':
+                    seq.setdefault((f[0], f[1]), []).append(l)
+            return seq
+        orders = [o for o in orders if group_seq(o) == group_seq(lines)]
         ref = None
         fwd = False
         for order in orders:
@@ -116,6 +127,11 @@ def run(ctx, deep, model_ok):
             r = impl.outcome(lambda: build(order, ver))
             case = {'kind': 'orders', 'version': ver, 'orders': [list(order), list(lines)]}
             if r[0] != 'ok':
+                if i < 0 and (list(order) == list(lines) or impl.outcome(lambda: build(lines, ver))[0] != 'ok'):
+                    ctx.violation('failing-input', 'a valid hand-made document is rejected in the order it is written in (%s)' % impl.outcome_name(r),
+                                  case, 'accepted', impl.outcome_name(r),
+                                  python="import gfapy\nprint(gfapy.Gfa(%r,version=%r))" % (list(lines), ver))
+                    break
                 # a document valid in one order must be valid in all
                 r0 = impl.outcome(lambda: build(lines, ver))
                 if r0[0] == 'ok':
